@@ -10,7 +10,7 @@ theorem natStr_length3 : ∀ n, n < 1000 → 100 ≤ n → (natStr n).length = 3
 
 /-- every line of `_HTTP_STATUS_LINES` whose code is in range is `ddd reason` for that code -/
 theorem statusLines_ok :
-    Gen.statusLines.all (fun p => lineFor p.1 p.2.toList || !(decide (100 ≤ p.1) && decide (p.1 ≤ 999))) = true := by
+    Gen.wsgiStatusLines.all (fun p => lineFor p.1 p.2.toList || !(decide (100 ≤ p.1) && decide (p.1 ≤ 999))) = true := by
   decide +kernel
 
 theorem unknown_tail_ok : (match " Unknown".toList with
@@ -19,7 +19,7 @@ theorem unknown_tail_ok : (match " Unknown".toList with
 
 theorem lineOfCode_ok (n : Nat) (h1 : 100 ≤ n) (h2 : n ≤ 999) : lineFor n (lineOfCode n) = true := by
   unfold lineOfCode lookupLine
-  cases hf : Gen.statusLines.find? (·.1 == n) with
+  cases hf : Gen.wsgiStatusLines.find? (·.1 == n) with
   | some p =>
     have hm := List.mem_of_find?_eq_some hf
     have hk := List.find?_some hf
